@@ -237,8 +237,9 @@ claimed["C20"] = (
     "same indices in the same order, whatever the storages' histories and representations. That the implementation "
     "computes these functions is the correspondence of C01-C18; this check re-evaluates it between runs: every history "
     "(entity churn, hash-map and all other storages, events, lazy updates, deletions, joins, change sets) is executed in "
-    "three processes (fresh hash seeds and address layout; in the third after other worlds and twice in a row) and on the "
-    "extracted model; results, handles, join rows, event streams, destroyed values and the ledger must be identical in "
+    "three processes (fresh hash seeds and address layout; in the third after other worlds and twice in a row), once more "
+    "from a destructor while a caller's panic unwinds, once more in a process with a logger installed and lazy closures "
+    "that take 9 ms each, and on the extracted model; results, handles, join rows, event streams, destroyed values and the ledger must be identical in "
     "all runs and equal to the model's; save/load histories are run in two processes and their serialised data compared. "
     "Partial: serialised output is compared as parsed data, not as bytes; the destruction order of HashMap::clear and of "
     "a dropped World's resources is unspecified in the code and canonicalised (sorted) before comparing.", "5.C20")
@@ -261,7 +262,8 @@ claimed["C19"] = (
     "model's, and independently of the model the ledger must hold no value twice, no observation may show a destroyed "
     "value and the process must not crash. Partial: what std's drop glue / BTreeMap / hashbrown do while unwinding is "
     "measured and pinned by the correspondence, not derived; one fault per operation; drain, entry API, lazy actions and "
-    "events under faults are not modelled.", "5.C19")
+    "events under faults are not modelled (on the implementation alone the check also asks that deferred work queued after "
+    "a destructor panic caught inside maintain is performed by the next maintain).", "5.C19")
 ENGINE["C19"] = "coq-unwind"
 REASONS = {}
 
